@@ -179,8 +179,11 @@ def _gen_rand_case(rng, force):
         W, H = rng.randint(lo, lo + 8), rng.randint(lo, lo + 8)
         ntr = rng.randint(1, 4)
         tracks = []
+        crowded = force.get("crowded")
         for _ in range(ntr):
             n = rng.choice([1, 1, 2, 3, 4, 5, 6, 7, 8, 8])
+            if crowded:
+                n = rng.choice([700, 1000, 1201])
             pts = []
             for k in range(n):
                 if pts and rng.random() < 0.2:
@@ -191,7 +194,7 @@ def _gen_rand_case(rng, force):
                         x, y = float(int(x)), float(int(y))
                 else:
                     x, y = rng.uniform(0, W), rng.uniform(0, H)
-                pts.append([x, y, rng.randint(-5, 9)])
+                pts.append([x, y, rng.randint(-5, 9) if not crowded else round(rng.uniform(-5, 9), 3)])
             tracks.append(pts)
         if _attempt == 0 and rng.random() < 0.02:
             # out of domain on purpose: zero width/height, or a cell larger than the extent
@@ -298,6 +301,11 @@ def cases(chunk):
             force["nan"] = nanmodes[(k + n // 4) % len(nanmodes)]
         if n % 5 == 2:
             force["res"] = RES[(k + n // 5) % len(RES)]
+        if n % 100 == 37:
+            # larger scale: tracks of about a thousand observations on a coarse grid (hundreds of values per cell)
+            force["crowded"] = True
+            force["nan"] = rng.choice(["free", "sprinkle"])
+            force["profile"] = "random"
         yield _gen_rand_case(rng, force)
 
 
@@ -321,8 +329,19 @@ def _expected(name, vals, nodata):
     raise M.HarnessError(name)
 
 
+# the aggregated feature's name: ordinary, or a legal name that resembles the documented pseudo-feature 'uid'
+# (a substring or a superstring of it, another case)
+FEATURE_NAMES = ["v", "id", "u", "d", "ui", "i", "uid2", "UID", "V", "v"]
+
+
+def _fname(case):
+    k = len(case["tracks"]) * 3 + sum(len(t) for t in case["tracks"]) + int(case["margin"] * 100)
+    return FEATURE_NAMES[k % len(FEATURE_NAMES)]
+
+
 def _summarise(case):
     import tracklib.core.utils as U
+    FN = _fname(case)
     from tracklib.core.track_collection import TrackCollection
     from tracklib.algo.summarising import summarize
     trs = []
@@ -330,7 +349,7 @@ def _summarise(case):
         tr = gen.make_track([(p[0], p[1], 0.0) for p in t])
         # user identifiers are numbers or text (the documented pseudo-feature 'uid' is counted per cell)
         tr.uid = (k + 1) if len(case["tracks"]) % 2 else "user-%d" % (k + 1)
-        tr.createAnalyticalFeature("v", [float("nan") if p[2] is None else p[2] for p in t])
+        tr.createAnalyticalFeature(FN, [float("nan") if p[2] is None else p[2] for p in t])
         tr.createAnalyticalFeature("w", [float("nan") if p[2] is None else p[2] for p in t])
         if (len(t) + k + len(case["tracks"])) % 3 == 0:
             uid = tr.uid
@@ -350,7 +369,7 @@ def _summarise(case):
     import random
     names = list(AGGS) + ["uid"]
     random.Random(repr((case["tracks"], case["res"], case["margin"]))).shuffle(names)
-    afs = ["uid" if a == "uid" else "v" for a in names]
+    afs = ["uid" if a == "uid" else FN for a in names]
     ops = [U.co_count if a == "uid" else getattr(U, a) for a in names]
     raster = summarize(col, afs, ops, tuple(case["res"]), case["margin"])
     ORDER[:] = names
@@ -378,6 +397,11 @@ def run_case(case, ctx):
         cls.add("nan_free")
     sig = (tuple(res), margin, tuple(tuple(tuple(p) for p in t) for t in tracks))
 
+    FN = _fname(case)
+    if FN != "v":
+        cls.add("feature_name_resembling_uid")
+    if nobs >= 1000:
+        cls.add("crowded_cells_hundreds_of_values")
     del SEEN[:]
     out = M.call(_summarise, case)
     if M.is_raised(out):
@@ -402,7 +426,7 @@ def run_case(case, ctx):
 
     # premise: the grid covers the extent, the extent contains every observation, no-data is the documented value
     ctx.monitor("grid.covers_extent")
-    fixes = [[(t.getObs(i).position.getX(), t.getObs(i).position.getY(), t.getObsAnalyticalFeature("v", i))
+    fixes = [[(t.getObs(i).position.getX(), t.getObs(i).position.getY(), t.getObsAnalyticalFeature(FN, i))
               for i in range(t.size())] for t in trs]
     scale = max(1.0, abs(raster.xmin), abs(raster.xmax), abs(raster.ymin), abs(raster.ymax))
     if (ncol < 1 or nrow < 1 or (rx, ry) != (res[0], res[1])
@@ -471,7 +495,7 @@ def run_case(case, ctx):
 
     # bands
     grids = {}
-    for name in ["v#" + a for a in AGGS] + ["uid#co_count"]:
+    for name in [FN + "#" + a for a in AGGS] + ["uid#co_count"]:
         m = M.call(raster.getAFMap, name)
         if M.is_raised(m):
             return fail("band %s is missing" % name, raised=m)
@@ -483,7 +507,7 @@ def run_case(case, ctx):
     # conservation
     ctx.monitor("conservation.counts")
     tot_uid = sum(grids["uid#co_count"][r][c] for r in range(nrow) for c in range(ncol))
-    tot_v = sum(grids["v#co_count"][r][c] for r in range(nrow) for c in range(ncol))
+    tot_v = sum(grids[FN + "#co_count"][r][c] for r in range(nrow) for c in range(ncol))
     n_valid = sum(1 for t in fixes for p in t if p[2] == p[2])
     if tot_uid != nobs or tot_v != n_valid:
         return fail("counts summed over all cells do not equal the number of observations / of non-NaN values",
@@ -500,7 +524,7 @@ def run_case(case, ctx):
                             got=got_n, expected=cellcount.get((c, r), 0))
             for a in AGGS:
                 exp = _expected(a, nn, nodata)
-                got = grids["v#" + a][r][c]
+                got = grids[FN + "#" + a][r][c]
                 if not M.feq(got, exp, 1e-9, 1e-12) or M.isnan(got):
                     return fail("cell aggregate differs from the aggregate of the (non-NaN) values located in the cell",
                                 aggregate=a, cell=[c, r], values_in_cell=vals, got=got, expected=exp,
@@ -522,7 +546,7 @@ def run_case(case, ctx):
                 # raised is not judged); the valid hand-over follows on the same raster
                 from tracklib.core.track_collection import TrackCollection
                 lacking = gen.make_track([(p[0], p[1], 0.0) for p in tracks[0]])
-                lacking.createAnalyticalFeature("v", [1.0] * lacking.size())
+                lacking.createAnalyticalFeature(FN, [1.0] * lacking.size())
                 M.call(raster.addCollectionToRaster, TrackCollection(list(trs) + [lacking]))
                 M.CTX.count("refused_collection_before_valid_one")
             raster.addCollectionToRaster(col)
@@ -532,7 +556,7 @@ def run_case(case, ctx):
         cls.add("history_band_added_later")
         if M.is_raised(r2):
             return fail("adding a band to the raster and handing the collection over again raised", raised=r2)
-        for name in ["v#" + a for a in AGGS] + ["uid#co_count"]:
+        for name in [FN + "#" + a for a in AGGS] + ["uid#co_count"]:
             g2 = raster.getAFMap(name).grid
             for r in range(nrow):
                 for c in range(ncol):
@@ -544,10 +568,10 @@ def run_case(case, ctx):
             gw = raster.getAFMap("w#" + a).grid
             for r in range(nrow):
                 for c in range(ncol):
-                    if not M.feq(gw[r][c], grids["v#" + a][r][c], 1e-12, 0):
+                    if not M.feq(gw[r][c], grids[FN + "#" + a][r][c], 1e-12, 0):
                         return fail("a band declared later differs from the same aggregate of the same values computed "
                                     "in the first pass", band="w#" + a, cell=[c, r], got=gw[r][c],
-                                    expected=grids["v#" + a][r][c])
+                                    expected=grids[FN + "#" + a][r][c])
 
     # direct getCell probes (the contract judges them)
     for p in case.get("probes", []):
@@ -573,7 +597,8 @@ def classify(case, witness):
 
 # floors for the call-history workloads added in session 3 (a run in which they were silently skipped is inconclusive)
 _floors_base = floors
-_FLOORS_EXTRA = {'monitors': {'second_addCollection.same_bands': 300}, 'classes': {'median_requested_before_another_aggregate': 1000}}
+_FLOORS_EXTRA = {'monitors': {'second_addCollection.same_bands': 300}, 'classes': {'median_requested_before_another_aggregate': 1000,
+                                                                                       'feature_name_resembling_uid': 1000, 'crowded_cells_hundreds_of_values': 20}}
 
 
 def floors(tier):
